@@ -100,6 +100,16 @@ fn main() {
         }
         "twin-child" => {
             let a: Vec<u64> = args[2..8].iter().map(|x| x.parse().unwrap()).collect();
+            // the environment is not an input of a run: restrict this process to ONE of its CPUs when asked to
+            if std::env::var_os("CVH_PIN_ONE_CPU").is_some() {
+                if let Ok(cur) = nix::sched::sched_getaffinity(nix::unistd::Pid::from_raw(0)) {
+                    if let Some(cpu) = (0..nix::sched::CpuSet::count()).find(|c| cur.is_set(*c).unwrap_or(false)) {
+                        let mut one = nix::sched::CpuSet::new();
+                        let _ = one.set(cpu);
+                        let _ = nix::sched::sched_setaffinity(nix::unistd::Pid::from_raw(0), &one);
+                    }
+                }
+            }
             println!("{}", cvh::dir::twin_trace(a[0] as usize, a[1] as usize, a[2] as usize, a[3], a[4] as usize, a[5] == 1));
         }
         "run" | "proc" => {
